@@ -38,7 +38,7 @@ ASSUMPTIONS = [
 ]
 
 OG = PolyOperands(max_terms=4, max_exp=2, kinds="if", max_names=3)
-SKIP = {"apply_along_axis", "apply_over_axes", "to_sympy", "str", "repr"}
+SKIP = {"apply_along_axis", "apply_over_axes", "to_sympy", "str", "repr", "copyto"}
 SECOND = ["none", "none", "add-self", "mul-self", "index0", "ravel", "sum", "neg"]
 
 
